@@ -118,6 +118,10 @@ def run(ctx):
             except Exception as e:  # noqa
                 ctx.violation("candidate computation raised", {"pred": pred, "ref": ref, "metric": mname, "observed": repr(e)[:200]})
                 continue
+            if any(math.isnan(c[0]) or math.isinf(c[0]) for c in cands):
+                ctx.violation("a candidate pair has an undefined matching score (the pair does not exist / does not overlap)",
+                              {"pred": pred, "ref": ref, "metric": mname, "candidates": cands})
+                continue
             if mname != "ASSD":
                 arr = [[int(a), int(b)] for a, b in zip(ref.ravel().tolist(), pred.ravel().tolist())]
                 cand_in.append([impl.METRICS.index(mname), arr])
